@@ -692,9 +692,7 @@ class LinearFilter(LinearFilterProperties):
     return False
 
   def __ne__(self, other):
-    if isinstance(other, LinearFilter):
-      return self.numpoly != other.numpoly and self.denpoly != other.denpoly
-    return False
+    return not (self == other)
 
 
 class ZFilterMeta(AbstractOperatorOverloaderMeta):
